@@ -45,7 +45,7 @@ def protocols():
     return db
 
 
-WORDS = ['foo', 'bar', 'org.example.App', 'Terminal', 'a b', 'x', 'hello world', 'wl_seat', 'seat0', 'launcher',
+WORDS = ['foo', 'bar', 'org.example.App', 'Terminal', 'a b', 'x', 'hello world', 'wl_seat', 'seat0', 'launcher', 'My  App',
          'com.vendor.thing', 'name', 'top', 'é', 'naïve café', '日本', 'tab\there', 'it\'s', 'a.b.', '.', 'UPPER lower 123']
 SYN_IFACES = ['my_widget', 'acme_thing_v2', 'test_iface']
 SYN_MSGS = ['poke', 'frob', 'set_title', 'set_app_id', 'destroy', 'configure', 'done']
@@ -319,7 +319,12 @@ def gen_history(rnd, n_conns=None, n_events=40, known_bias=0.8, chatter=0.1, dia
                 c.script = []
         if m is None:
             r = rnd.random()
-            if r < 0.12 and c.zombie:
+            srv_live = [i for i in c.live if i >= SERVER_BASE]
+            if r < 0.03 and srv_live:
+                i = rnd.choice(srv_live)
+                c.dead[i] = c.live.pop(i)
+                m = dict(sent=c.server_side, iface='wl_display', id=1, name='delete_id', args=[('int', i)])
+            elif r < 0.12 and c.zombie:
                 # server acknowledges a destroyed id
                 i = rnd.choice(sorted(c.zombie))
                 c.dead[i] = c.zombie.pop(i)
@@ -327,6 +332,8 @@ def gen_history(rnd, n_conns=None, n_events=40, known_bias=0.8, chatter=0.1, dia
             elif r < 0.2 and c.live.get(2) == 'wl_registry' or (r < 0.25 and 'wl_registry' in c.live.values()):
                 reg = rnd.choice([i for i, t in c.live.items() if t == 'wl_registry'])
                 t = rnd.choice(known + SYN_IFACES)
+                if rnd.random() < 0.25:
+                    t = rnd.choice(['xdg_toplevel', 'xdg_toplevel', 'zxdg_toplevel_v6', 'zwlr_layer_shell_v1'])   # carry titles / app ids
                 i = c.alloc_client()
                 c.live[i] = t
                 c.dead.pop(i, None)
@@ -346,6 +353,9 @@ def gen_history(rnd, n_conns=None, n_events=40, known_bias=0.8, chatter=0.1, dia
                     if not msgs:
                         continue
                     name, is_event, spec = rnd.choice(msgs)
+                    titled = [x for x in msgs if x[0] in ('set_title', 'set_app_id', 'get_layer_surface')]
+                    if titled and rnd.random() < 0.5:
+                        name, is_event, spec = rnd.choice(titled)      # the connection's title: first, second, empty ...
                     in_zombie = oid in c.zombie or (oid in c.dead and oid not in c.live)
                     if in_zombie and not is_event:
                         evs = [x for x in msgs if x[1]]
@@ -394,6 +404,11 @@ def gen_history(rnd, n_conns=None, n_events=40, known_bias=0.8, chatter=0.1, dia
                     m = dict(sent=rnd.random() < 0.5, iface=otype, id=oid, name=name, args=args)
                     if name == 'destroy' and oid in c.live and oid != 1 and oid < SERVER_BASE and m['sent'] != c.server_side:
                         c.zombie[oid] = c.live.pop(oid)
+        if m.get('id', 1) != 1 and rnd.random() < 0.02:
+            if rnd.random() < 0.5:
+                m = dict(m, iface=rnd.choice(['bbb_gadget', 'wl_buffer', 'wl_surface']))        # printed interface contradicts the table
+            else:
+                m = dict(m, id=rnd.choice([77, 1234, 4278190099]))                                # an id this log never saw created
         m['time_us'] = t_us
         m['tag'] = c.tag
         m['queue'] = queue
